@@ -597,6 +597,8 @@ func Dial(ctx context.Context, opt Options) (c *Client, err error) {
 
 	client, err := Connect(ctx, conn, opt)
 	if err != nil {
+		// Connection is owned by Dial and will not be returned to the caller.
+		_ = conn.Close()
 		return nil, errors.Wrap(err, "connect")
 	}
 
